@@ -152,7 +152,7 @@ Record lsheet : Type := mkLSheet {
 }.
 Record lwb : Type := mkLwb {
   lw_sheets : list lsheet;
-  lw_names : list (str * Meta.xref);         (* defined names *)
+  lw_names : list (str * Ptg.expr);         (* defined names *)
   lw_1904 : bool;
   lw_styles : NumFmt.style_table;            (* custom number formats, ifmt of every cell XF *)
   lw_strings : list BiffSst.ustring          (* shared strings, as UTF-16 code units *)
@@ -164,7 +164,7 @@ Definition env_of (wb : lwb) : BiffRec.env :=
   BiffRec.mkEnv (map fmt_conv (NumFmt.spec_formats (lw_styles wb))) (lw_1904 wb)
                 (map BiffSst.utf16_decode (lw_strings wb)).
 
-Definition meta_wb (wb : lwb) : Meta.workbook Meta.xref :=
+Definition meta_wb (wb : lwb) : Meta.workbook Ptg.expr :=
   Meta.mkWb (map ls_meta (lw_sheets wb)) (lw_names wb) (lw_1904 wb).
 
 (* ===================================================================================== *)
@@ -226,14 +226,16 @@ Record xchoice : Type := mkXch {
 Definition ls_choices (zero : bool) (scs : list sheet_choice) : list Meta.ls_choice :=
   map (fun sc => Meta.mkLs (if zero then 0 else sc_pos sc) (sc_wide sc) (sc_hi sc)) scs.
 Definition meta_choice (zero : bool) (ch : xchoice) (tail : bytes) : Meta.xls_choice :=
-  Meta.mkLc (ls_choices zero (xc_sheets ch)) (xc_names ch) (xc_xtis ch)
+  (* the XTI array is written into the ExternSheet record alone (no CONTINUE records: [lc_xcuts] = []);
+     Meta's own theorem covers every split *)
+  Meta.mkLc (ls_choices zero (xc_sheets ch)) (xc_names ch) (xc_xtis ch) []
             (map gi_rec (xc_j0 ch)) (map gi_rec (xc_j1 ch))
             (map gi_rec (xc_j2 ch)) (map gi_rec (xc_j3 ch))
             (xc_omit_1904 ch) tail.
 
 (* the records of Meta.xls_stream in front of its EOF, as a list (xls_stream_frames in the
    proofs: Meta.xls_stream c wb = frames (grecs c wb) ++ frame 10 [] ++ lc_tail c) *)
-Definition grecs (c : Meta.xls_choice) (wb : Meta.workbook Meta.xref) : list grec :=
+Definition grecs (c : Meta.xls_choice) (wb : Meta.workbook Ptg.expr) : list grec :=
   (2057, Meta.bof_globals) :: Meta.lc_junk0 c
   ++ (if Meta.lc_omit_1904 c && negb (Meta.wb_1904 wb) then []
       else [(34, BiffSst.le16 (BiffSst.b2n (Meta.wb_1904 wb)))])
@@ -250,13 +252,13 @@ Definition grecs (c : Meta.xls_choice) (wb : Meta.workbook Meta.xref) : list gre
       | xs => [(430, [1; 0; 1; 4]);
                (23, BiffSst.le16 (BiffSst.len xs) ++ flat_map Meta.xti6 xs)]
       end)
-  ++ map (fun nc : (str * Meta.xref) * Meta.ln_choice => (24, Meta.lbl_body (fst nc) (snd nc)))
+  ++ map (fun nc : (str * Ptg.expr) * Meta.ln_choice => (24, Meta.lbl_body (fst nc) (snd nc)))
          (combine (Meta.wb_names wb) (Meta.lc_names c))
   ++ Meta.lc_junk3 c.
 
 (* the globals substream: the records of Meta's encoder with the SST (and its CONTINUE records)
    after the first k of them, then EOF *)
-Definition globals_bytes (c : Meta.xls_choice) (wb : Meta.workbook Meta.xref) (k : nat)
+Definition globals_bytes (c : Meta.xls_choice) (wb : Meta.workbook Ptg.expr) (k : nat)
            (sst : BiffSst.rstate) : bytes :=
   Meta.frames (firstn k (grecs c wb)) ++ BiffSst.frame_sst sst
   ++ Meta.frames (skipn k (grecs c wb)) ++ BiffSst.frame 10 [].
@@ -363,9 +365,9 @@ Definition xfile_legal (wb : lwb) (ch : xchoice) : Prop :=
              (map sc_layout (xc_sheets ch)) (lw_sheets wb).
 
 (* the expected answer *)
-Definition spec_result (wb : lwb) (ch : xchoice) : wbresult :=
+Definition spec_result (show_f64 : N -> list N) (wb : lwb) (ch : xchoice) : wbresult :=
   mkRes (map ls_meta (lw_sheets wb))
-        (Meta.spec_names_xls (meta_choice true ch []) (meta_wb wb))
+        (Meta.spec_names_xls show_f64 (meta_choice true ch []) (meta_wb wb))
         (lw_1904 wb)
         (map (fun s => (Meta.m_name (ls_meta s), BiffRec.range_of (ls_cells s))) (lw_sheets wb)).
 
